@@ -67,7 +67,7 @@ token_specification = [
     ("LT", r"<"),
     ("GT", r">"),
     ("TILDE", r"\~"),
-    ("NAMESPACE", r"::"),
+    ("SCOPE", r"::"),  # not "NAMESPACE": that is the keyword 'namespace'.upper()
     ("COLON", r":"),
     ("VARARG", r"\.\.\."),
     ("ID", r"[A-Za-z_][A-Za-z0-9_]*"),  # Identifiers
@@ -423,7 +423,7 @@ class Parser(ExprParser):
         self.enter("nested_namespace")
         nested = [self.token.value]
         self.next()
-        while self.have("NAMESPACE"):
+        while self.have("SCOPE"):
             # make sure nested scope is a namespaceNode
             tok = self.mustbe("ID")
             name = tok.value
